@@ -5,6 +5,18 @@ props = [json.loads(l) for l in open('properties.jsonl')]
 ids = [p['id'] for p in props]
 # id -> (level, technique, text, note, design_ref)
 checks = {
+ 'C08': ('exploration', 'runtime monitor: model lookup oracle over every addressable node x path spelling x store; store immutability check',
+         'For every container, list, entry and leaf of generated trees, Find with plain / module-qualified / trailing-slash / fully percent-encoded spellings, ../ paths from the node itself and paths with query parameters must select exactly the model node (schema identity, structured path chain, key values, exported content), the rendered path must lead back, absent keys select nothing and unknown names are not-found errors.',
+         'trusts the model tree and net/url escaping; stores: reference store and JSON reader', 'DESIGN.md 3/C08'),
+ 'C09': ('exploration', 'runtime monitor: invariant scan of the target store after every step of an upsert history + reference model (SwitchCase)',
+         'After every upsert of histories of 2..12 steps that alternate cases (nested choices, shorthand cases, cases with leaves/leaf-lists/containers/lists, choices in lists) the store is scanned for choices holding data of two cases, compared with the model and exported.',
+         'trusts dp.Apply/clearOtherCases (model) and the reference store', 'DESIGN.md 3/C09'),
+ 'C12': ('fault_enumeration', 'runtime monitor: recorded callback trace + offline trace checker; every fault position k of every scenario enumerated',
+         'Each scenario (operation x entry point x trees) is run once fault-free to measure its callback trace, then once per callback position with that callback failing on the source or target side; the offline checker verifies begin/end pairing per node identity, the set of notified nodes, wrapping of the injected error and absence of writes after the failure. Exhaustive in k per scenario; scenarios are sampled.',
+         'trusts the recording wrapper (pass-through) and the reference store', 'DESIGN.md 3/C12'),
+ 'C18': ('exploration', 'runtime monitor: reference model (delete/replace) vs store read directly after every step + key-uniqueness scan + Find probes',
+         'Histories of 3..15 delete / replace / insert / upsert operations (first, middle, last, only entry; whole list; container; delete-then-reinsert) are replayed against model and library; after each step the store equals the model, no list holds a duplicate key, the removed node is no longer found and remaining nodes are.',
+         'trusts dp.DeleteAt/Apply (model); stores: reference store (reflection stores: see DESIGN)', 'DESIGN.md 3/C18'),
  'C03': ('exploration', 'runtime monitor: executable reference model (keyed deep merge) vs target store read directly; error class via errors.Is',
          'Every edit call on a generated (schema, target, source, strategy, entry point, direction, source implementation) tuple and on histories of up to 6 such calls is compared with an executable model written from the statement; the target is a harness store read without any library read path. Held on the executions observed.',
          'trusts the model dp.Apply (60 lines) and the reference store; domain: schemas without choice/when, non-empty lists, key-preserving edits', 'DESIGN.md 3/C03'),
